@@ -11,6 +11,11 @@ CLAIMED = {
         text="The abstract digraph and every public query are specified in CGraph.tla. TLC proves the spec-level laws on all 567 graphs over 3 ids, enumerates every mutator history inside the bound (exhaustive: <=3 calls over 3 ids and <=2 over 4 ids in quick; <=4/3 in thorough) with the predicted answer of every query, and the harness replays each on the real object comparing all public const methods. Random 150-500 step histories recorded from the real object (tombstones, re-insertion, UpdatableGraph) are validated event by event against the spec. Exhaustive inside the bound, sampled beyond it; not a proof for unbounded histories.",
         note="Trusted: TLC, the Json/IOUtils community modules, h_graph.cpp's projection of the public API. Orders (TopologicalOrder, Sort) are checked by the property (permutation, edge-respecting when acyclic, Sort is a subsequence), not against one particular order.",
         ref="5/C14"),
+    "C20": dict(
+        technique="TLA+ spec Strings.tla; TLC model checking of interval-algebra and string laws; exhaustive TLC-enumerated strings/ranges replayed on ccl/Strings.hpp; recorded calls validated by Trace_C20.tla",
+        text="Strings.tla defines code-point iteration, Substr, SizeInCodePoints, SplitBySymbol, TrimWhitespace, IsInteger and every StrRange relation, Intersect and Merge by their end-point / point-set definitions. TLC checks the dualities, symmetry, exclusivity of the 13 Allen relations, intersection and minimal-hull laws on all 784 range pairs of the window and split/trim/substr laws on all short strings; then enumerates exhaustively all strings of <=4 (thorough 5) code points over a 9-symbol alphabet covering 1-4 byte encodings with every in/out-of-bounds range, and all lists of <=3 ranges, and the harness compares every function's result. Random long strings and wide ranges recorded from the real code are checked against the same operators by TLC.",
+        note="Trusted: TLC, Json module, the harness's own UTF-8 encoder. Preconditions of the header (well-formed UTF-8, start<=finish) delimit the space. Overlaps/Contains(range)/SharesBorder with an empty operand are drift-only (statement does not fix that reading).",
+        ref="5/C20"),
 }
 
 REASON_PENDING = "check not built yet in this round (specification in progress; see DESIGN.md section 7) - not claimed rather than claimed with an unfinished check"
